@@ -225,7 +225,7 @@ def pool_harnesses(tier):
 CLIENT_OPS = ("get", "set", "fail", "quit", "get_many", "close")
 
 
-def client_program(op, pc):
+def client_program(op, pc, net=None):
     def run():
         if op == "get":
             return pc.get("a")
@@ -241,6 +241,10 @@ def client_program(op, pc):
         if op == "quit":
             return pc.quit()
         if op == "close":
+            if net is not None:
+                # sockets that already carried a request when close() starts: each belongs to a pooled client
+                # (idle or checked out) at that moment, so close() is responsible for closing it
+                net.verif_used_at_close = {e[3] for e in net.events if e[2] == "sendall" and e[3] >= 0}
             return pc.close()
 
     return run
@@ -303,7 +307,7 @@ def run_client(ch, ops_, max_pool_size, idle, granularity):
 
     s.invariant = invariant
     for op in ops_:
-        s.add(client_program(op, pc))
+        s.add(client_program(op, pc, net))
     ins.sched = s
     try:
         s.run()
@@ -378,7 +382,7 @@ def run_client_fresh(ch, ops_, max_pool_size, idle, granularity):
 
     s.invariant = invariant
     for op in ops_:
-        s.add(client_program(op, pc))
+        s.add(client_program(op, pc, net))
     cls.get, cls.release, cls.destroy = get, release, destroy
     ins.sched = s
     try:
@@ -414,7 +418,11 @@ def judge_client(s, pc, net, problems, ops_, max_pool_size):
         if sk.shadow:
             continue
         if sk.state != "closed" and sk.sid not in idle_socks:
-            if "close" in ops_:
+            if "close" in ops_ and sk.sid in getattr(net, "verif_used_at_close", ()):
+                out.append(("socket-in-use-at-close-never-closed", f"socket {sk.sid} had carried a request when close() "
+                            f"was called, and is still open after every thread is done (close() closes every pooled "
+                            f"client, idle or checked out)"))
+            elif "close" in ops_:
                 # known finding: PooledClient.close() while another thread has a client checked out
                 out.append(("socket-leaked-after-close", f"socket {sk.sid} is open but belongs to no idle pooled client "
                             f"(a thread called close() while another one had a client checked out)"))
